@@ -57,6 +57,21 @@ def run(ctx):
                       "tree.iter().next().unwrap() only when size >= k >= 1 (tree non-empty by R10-paired)",
                       "unwrap on %s is not discharged by `size >= k`" % fmt(arg))
             continue
+        # the asserted condition is the test that branches into the panic block: the LAST dominating fact (earlier facts mentioning the
+        # estimate are ordinary branch conditions of add, not beliefs)
+        if kind in ("debug_assert", "assert") and facts:
+            c_last, t_last = facts[-1]
+            if not mentions_estimate(c_last):
+                # `debug_assert!(self.obj2count.remove(&min.obj).is_some())` with min = the tree's first entry: the pairing invariant
+                # (R10-paired: tree and map hold the same keys) discharges it
+                okp = (t_last is False and c_last[0] == "call" and c_last[1].endswith("is_some") and c_last[2] and c_last[2][0][0] == "call"
+                       and c_last[2][0][1].endswith("remove") and c_last[2][0][2][0] == ("field", selfp, "obj2count")
+                       and ("elem", ("field", selfp, "tree")) in subterms(c_last[2][0][2][1]))
+                ctx.check(okp, "R10-no-belief-panic", "%s:%s(structure)" % (add.key, kind), span,
+                          "assertion `the evicted minimum was in the map` is the pairing invariant of R10-paired",
+                          "add contains an assertion (%s) on %s that no rule discharges" % (kind, fmt(c_last)[:160]))
+                continue
+            est = [(c_last, t_last)]
         if est:
             c, t = est[-1]
             # the panic is reached when the asserted condition is false: asserted = not(fact)
